@@ -145,9 +145,21 @@ def stage_b(prop, cfg, tier, seed, log):
         gen = mod.GROUPS[gname]
         rng = random.Random((seed * 1000003) ^ hash_str(gname))
         t0 = time.time()
-        cases = list(gen(rng, n, tier))
-        for extra in spec.get("exhaustive_" + tier, []):
-            cases += list(getattr(mod, extra)())
+        cases = []
+        try:
+            for c in gen(rng, n, tier):
+                cases.append(c)
+            for extra in spec.get("exhaustive_" + tier, []):
+                for c in getattr(mod, extra)():
+                    cases.append(c)
+        except Exception as exc:  # noqa: BLE001
+            # the harness could not even canonicalise what the implementation returned
+            # (wrong type, missing attribute, …): that is a behavioural difference
+            log(traceback.format_exc())
+            res["ok"] = False
+            res["mismatches"].append({"group": gname, "function": "(case generation)",
+                                      "request": "", "implementation": "raised %r" % (exc,),
+                                      "model": "", "input": {"after_cases": len(cases)}})
         pre = [z.line() for z in zones.all_used()]
         out = common.run_model([c.request for c in cases], pre)
         stats = {}
